@@ -95,6 +95,11 @@ CLAIMED["C13"] = ("model_checking",
   "Every alias against its canonical name on all documented examples and all argument tuples (arity <=3) over 6 atoms; 48 expressions as first/later --select, --filter, --sort-by (both directions), --group-by, --split-by, --set macro, --set variable (late positions also behind another --select, everything also after --split-by) over all sequences of <=3 (thorough 4) values over 5 records: rows kept / ordered / grouped / produced must be those the selected values dictate; 40 expressions in 14 spellings (separators, padding before the closing parenthesis, leading-dot sugar, commas directly after variables, macros, keys, numbers, strings) must have one value; cache sizes 0/1/2/64 over all sequences of <=4 (thorough 5) (subject, pattern) pairs must give the regex crate's own answers.",
   "Padding directly after the opening parenthesis is not documented and not demanded.",
   "DESIGN.md §5 C13")
+CLAIMED["C15"] = ("model_checking",
+  "bounded-exhaustive enumeration of rows of typed values x selection names (csv) and x text option sets within a deviation bound (text) on jawk::go; csv read back by an independent RFC 4180 reader, text compared with the documented rendering",
+  "csv: every row of 1..2 selections (3: a slice in quick, all 27 000 in thorough) over 30 values (all types, absent, quotes, commas, CR, LF, tabs, edge blanks, non-ASCII, keyword and number look-alikes, 2^64-1, nested values holding such strings) x 3 name sets is read by an RFC 4180 reader that must find the names in order, N fields per record and each value recoverable by type; text: every row of 1..2 selections over 24 values under every option set within 3 (thorough 4) deviations from the defaults (separators, prefix/postfix, keywords, missing keyword, headers, single-byte escape sequences, row separators) must equal the documented rendering byte for byte.",
+  "Text mode is checked on values with an unambiguous spelling; escape sequences are single-byte as the property states (a multi-byte escaped character panics in TextPrinter::from - outside every listed property, see DESIGN.md §7).",
+  "DESIGN.md §5 C15")
 NOT_YET = {}
 props=[json.loads(l) for l in open('/verif/properties.jsonl')]
 checks=[]; na=[]
